@@ -70,7 +70,7 @@ fn collect(p: &P, field: usize, multi: bool, hidden: bool, in_alt: bool, transfo
             t.has_adjacent = true;
             v.iter().for_each(|x| collect(x, field, multi, hidden, in_alt, transformed, t, top))
         }
-        P::Alt(v) => v.iter().for_each(|x| collect(x, field, multi, hidden, true, transformed, t, top)),
+        P::Alt(v) | P::Choice(v) => v.iter().for_each(|x| collect(x, field, multi, hidden, true, transformed, t, top)),
         P::Many(x, _) | P::Some_(x, _) | P::Collect(x, _) | P::Count(x) | P::Last(x) => collect(x, field, true, hidden, in_alt, transformed, t, top),
         P::Hide(x) => collect(x, field, multi, true, in_alt, transformed, t, top),
         P::Parse(x, _) | P::Guard(x, _) => collect(x, field, multi, hidden, in_alt, true, t, top),
@@ -119,7 +119,7 @@ pub fn fine_table(o: &Opts) -> Table {
             P::Arg { names, .. } => leaf(names, ids, counter),
             P::Cmd { .. } => {}
             P::Many(x, _) | P::Some_(x, _) | P::Collect(x, _) | P::Count(x) | P::Last(x) => assign(x, true, forced, ids, counter),
-            P::Alt(v) if multi && forced.is_none() => {
+            P::Alt(v) | P::Choice(v) if multi && forced.is_none() => {
                 *counter += 1;
                 let id = *counter;
                 v.iter().for_each(|x| assign(x, multi, Some(id), ids, counter));
